@@ -1689,3 +1689,461 @@ class BogusDoctypeState:
         if result is not True:
             return False
         return spec_bogus_doctype(old, self, v, v[:1])
+
+
+# ---- script data states (13.2.5.15-31) ---------------------------------------------------------------------------
+# All of them only emit character data (compared after concatenation) and move between states; `temporaryBuffer` is
+# kept as typed (the standard keeps it lower-cased; it is only ever compared ignoring case).
+def sd_step(old, self, state, text, rest):
+    return step(old, self, state, text, rest) and token_untouched(old, self)
+
+
+def tmp_is(self, value):
+    return self.temporaryBuffer == value
+
+
+def tmp_same(old, self):
+    return self.temporaryBuffer == old.self.temporaryBuffer
+
+
+def spec_sd_less_than(old, self, v, c):
+    if c == "/":
+        return sd_step(old, self, "scriptDataEndTagOpenState", "", v[1:]) and tmp_is(self, "")
+    if c == "!":
+        return sd_step(old, self, "scriptDataEscapeStartState", "<!", v[1:])
+    return sd_step(old, self, "scriptDataState", "<", v)
+
+
+def spec_sd_escape_start(old, self, v, c, nxt):
+    if c == "-":
+        return sd_step(old, self, nxt, "-", v[1:])
+    return sd_step(old, self, "scriptDataState", "", v)
+
+
+def spec_sd_escaped(old, self, v, c):
+    if c == "":
+        return sd_step(old, self, "dataState", "", "")
+    if c == "-":
+        return sd_step(old, self, "scriptDataEscapedDashState", "-", v[1:])
+    if c == "<":
+        return sd_step(old, self, "scriptDataEscapedLessThanSignState", "", v[1:])
+    if c == "\u0000":
+        return sd_step(old, self, "scriptDataEscapedState", "�", v[1:])
+    toks = new_tokens(old, self)
+    run = text_of(toks)
+    rest = view(self.stream)
+    return (method_name(self.state) == "scriptDataEscapedState" and len(others(toks)) == 0 and token_untouched(old, self)
+            and run != "" and run + rest == v and no_chars(run[1:], "<-\u0000"))
+
+
+def spec_sd_escaped_dash(old, self, v, c, dashdash):
+    if c == "":
+        return sd_step(old, self, "dataState", "", "")
+    if c == "-":
+        return sd_step(old, self, "scriptDataEscapedDashDashState", "-", v[1:])
+    if c == "<":
+        return sd_step(old, self, "scriptDataEscapedLessThanSignState", "", v[1:])
+    if dashdash and c == ">":
+        return sd_step(old, self, "scriptDataState", ">", v[1:])
+    return sd_step(old, self, "scriptDataEscapedState", nul_or(c), v[1:])
+
+
+def spec_sd_escaped_less_than(old, self, v, c):
+    if c == "/":
+        return sd_step(old, self, "scriptDataEscapedEndTagOpenState", "", v[1:]) and tmp_is(self, "")
+    if c in LETTERS_SET:
+        # "<" is emitted, then the double escape start state emits the letter and starts the buffer with it
+        return sd_step(old, self, "scriptDataDoubleEscapeStartState", "<" + c, v[1:]) and tmp_is(self, c)
+    return sd_step(old, self, "scriptDataEscapedState", "<", v)
+
+
+def spec_sd_double_escape_edge(old, self, v, c, if_script, otherwise, fallback):
+    """double escape start / end: a delimiter decides by the buffer, a letter joins the buffer, anything else is
+    reconsumed in `fallback`"""
+    tmp = old.self.temporaryBuffer
+    if c != "" and (c in SPACE or c == "/" or c == ">"):
+        nxt = if_script if tmp.lower() == "script" else otherwise
+        return sd_step(old, self, nxt, c, v[1:]) and tmp_same(old, self)
+    if c in LETTERS_SET:
+        return sd_step(old, self, method_name(old.self.state), c, v[1:]) and tmp_is(self, tmp + c)
+    return sd_step(old, self, fallback, "", v) and tmp_same(old, self)
+
+
+def spec_sd_double_escaped(old, self, v, c, me):
+    """me: 0 double escaped, 1 ... dash, 2 ... dash dash"""
+    if c == "":
+        return sd_step(old, self, "dataState", "", "")
+    if c == "-":
+        nxt = "scriptDataDoubleEscapedDashState" if me == 0 else "scriptDataDoubleEscapedDashDashState"
+        return sd_step(old, self, nxt, "-", v[1:])
+    if c == "<":
+        return sd_step(old, self, "scriptDataDoubleEscapedLessThanSignState", "<", v[1:])
+    if me == 2 and c == ">":
+        return sd_step(old, self, "scriptDataState", ">", v[1:])
+    return sd_step(old, self, "scriptDataDoubleEscapedState", nul_or(c), v[1:])
+
+
+def spec_sd_double_escaped_less_than(old, self, v, c):
+    if c == "/":
+        return sd_step(old, self, "scriptDataDoubleEscapeEndState", "/", v[1:]) and tmp_is(self, "")
+    return sd_step(old, self, "scriptDataDoubleEscapedState", "", v)
+
+
+@contract(TOK + ".scriptDataLessThanSignState")
+class ScriptDataLessThanSignState:
+    props = ("C02",)
+    modular = False
+
+    def inputs(S):
+        return dict(self=tokenizer(S, "scriptDataLessThanSignState", "any"))
+
+    def call(i):
+        return run_state(i, "scriptDataLessThanSignState")
+
+    @ensures("C02")
+    def follows_the_standard(old, self, result):
+        v = view(old.self.stream)
+        if result is not True:
+            return False
+        return spec_sd_less_than(old, self, v, v[:1])
+
+
+@contract(TOK + ".scriptDataEndTagOpenState")
+class ScriptDataEndTagOpenState:
+    props = ("C02",)
+    modular = False
+
+    def inputs(S):
+        return dict(self=tokenizer(S, "scriptDataEndTagOpenState", "any"))
+
+    def call(i):
+        return run_state(i, "scriptDataEndTagOpenState")
+
+    @ensures("C02")
+    def follows_the_standard(old, self, result):
+        v = view(old.self.stream)
+        if result is not True:
+            return False
+        return end_tag_open(old, self, result, "scriptDataState", "scriptDataEndTagNameState")
+
+
+@contract(TOK + ".scriptDataEndTagNameState")
+class ScriptDataEndTagNameState:
+    props = ("C02",)
+    modular = False
+
+    def inputs(S):
+        return dict(self=tokenizer(S, "scriptDataEndTagNameState", "any"))
+
+    def call(i):
+        return run_state(i, "scriptDataEndTagNameState")
+
+    @ensures("C02")
+    def follows_the_standard(old, self, result):
+        v = view(old.self.stream)
+        if result is not True:
+            return False
+        return end_tag_name(old, self, result, "scriptDataState", "scriptDataEndTagNameState")
+
+
+@contract(TOK + ".scriptDataEscapeStartState")
+class ScriptDataEscapeStartState:
+    props = ("C02",)
+    modular = False
+
+    def inputs(S):
+        return dict(self=tokenizer(S, "scriptDataEscapeStartState", "any"))
+
+    def call(i):
+        return run_state(i, "scriptDataEscapeStartState")
+
+    @ensures("C02")
+    def follows_the_standard(old, self, result):
+        v = view(old.self.stream)
+        if result is not True:
+            return False
+        return spec_sd_escape_start(old, self, v, v[:1], "scriptDataEscapeStartDashState")
+
+
+@contract(TOK + ".scriptDataEscapeStartDashState")
+class ScriptDataEscapeStartDashState:
+    props = ("C02",)
+    modular = False
+
+    def inputs(S):
+        return dict(self=tokenizer(S, "scriptDataEscapeStartDashState", "any"))
+
+    def call(i):
+        return run_state(i, "scriptDataEscapeStartDashState")
+
+    @ensures("C02")
+    def follows_the_standard(old, self, result):
+        v = view(old.self.stream)
+        if result is not True:
+            return False
+        return spec_sd_escape_start(old, self, v, v[:1], "scriptDataEscapedDashDashState")
+
+
+@contract(TOK + ".scriptDataEscapedState")
+class ScriptDataEscapedState:
+    props = ("C02",)
+    modular = False
+
+    def inputs(S):
+        return dict(self=tokenizer(S, "scriptDataEscapedState", "any"))
+
+    def call(i):
+        return run_state(i, "scriptDataEscapedState")
+
+    @ensures("C02")
+    def follows_the_standard(old, self, result):
+        v = view(old.self.stream)
+        if result is not True:
+            return False
+        return spec_sd_escaped(old, self, v, v[:1])
+
+
+@contract(TOK + ".scriptDataEscapedDashState")
+class ScriptDataEscapedDashState:
+    props = ("C02",)
+    modular = False
+
+    def inputs(S):
+        return dict(self=tokenizer(S, "scriptDataEscapedDashState", "any"))
+
+    def call(i):
+        return run_state(i, "scriptDataEscapedDashState")
+
+    @ensures("C02")
+    def follows_the_standard(old, self, result):
+        v = view(old.self.stream)
+        if result is not True:
+            return False
+        return spec_sd_escaped_dash(old, self, v, v[:1], False)
+
+
+@contract(TOK + ".scriptDataEscapedDashDashState")
+class ScriptDataEscapedDashDashState:
+    props = ("C02",)
+    modular = False
+
+    def inputs(S):
+        return dict(self=tokenizer(S, "scriptDataEscapedDashDashState", "any"))
+
+    def call(i):
+        return run_state(i, "scriptDataEscapedDashDashState")
+
+    @ensures("C02")
+    def follows_the_standard(old, self, result):
+        v = view(old.self.stream)
+        if result is not True:
+            return False
+        return spec_sd_escaped_dash(old, self, v, v[:1], True)
+
+
+@contract(TOK + ".scriptDataEscapedLessThanSignState")
+class ScriptDataEscapedLessThanSignState:
+    props = ("C02",)
+    modular = False
+
+    def inputs(S):
+        return dict(self=tokenizer(S, "scriptDataEscapedLessThanSignState", "any"))
+
+    def call(i):
+        return run_state(i, "scriptDataEscapedLessThanSignState")
+
+    @ensures("C02")
+    def follows_the_standard(old, self, result):
+        v = view(old.self.stream)
+        if result is not True:
+            return False
+        return spec_sd_escaped_less_than(old, self, v, v[:1])
+
+
+@contract(TOK + ".scriptDataEscapedEndTagOpenState")
+class ScriptDataEscapedEndTagOpenState:
+    props = ("C02",)
+    modular = False
+
+    def inputs(S):
+        return dict(self=tokenizer(S, "scriptDataEscapedEndTagOpenState", "any"))
+
+    def call(i):
+        return run_state(i, "scriptDataEscapedEndTagOpenState")
+
+    @requires
+    def buffer_was_emptied_by_the_less_than_sign_state(self):
+        return self.temporaryBuffer == ""
+
+    @ensures("C02")
+    def follows_the_standard(old, self, result):
+        v = view(old.self.stream)
+        if result is not True:
+            return False
+        return end_tag_open(old, self, result, "scriptDataEscapedState", "scriptDataEscapedEndTagNameState")
+
+
+@contract(TOK + ".scriptDataEscapedEndTagNameState")
+class ScriptDataEscapedEndTagNameState:
+    props = ("C02",)
+    modular = False
+
+    def inputs(S):
+        return dict(self=tokenizer(S, "scriptDataEscapedEndTagNameState", "any"))
+
+    def call(i):
+        return run_state(i, "scriptDataEscapedEndTagNameState")
+
+    @ensures("C02")
+    def follows_the_standard(old, self, result):
+        v = view(old.self.stream)
+        if result is not True:
+            return False
+        return end_tag_name(old, self, result, "scriptDataEscapedState", "scriptDataEscapedEndTagNameState")
+
+
+@contract(TOK + ".scriptDataDoubleEscapeStartState")
+class ScriptDataDoubleEscapeStartState:
+    props = ("C02",)
+    modular = False
+
+    def inputs(S):
+        return dict(self=tokenizer(S, "scriptDataDoubleEscapeStartState", "any"))
+
+    def call(i):
+        return run_state(i, "scriptDataDoubleEscapeStartState")
+
+    @ensures("C02")
+    def follows_the_standard(old, self, result):
+        v = view(old.self.stream)
+        if result is not True:
+            return False
+        return spec_sd_double_escape_edge(old, self, v, v[:1], "scriptDataDoubleEscapedState", "scriptDataEscapedState", "scriptDataEscapedState")
+
+
+@contract(TOK + ".scriptDataDoubleEscapedState")
+class ScriptDataDoubleEscapedState:
+    props = ("C02",)
+    modular = False
+
+    def inputs(S):
+        return dict(self=tokenizer(S, "scriptDataDoubleEscapedState", "any"))
+
+    def call(i):
+        return run_state(i, "scriptDataDoubleEscapedState")
+
+    @ensures("C02")
+    def follows_the_standard(old, self, result):
+        v = view(old.self.stream)
+        if result is not True:
+            return False
+        return spec_sd_double_escaped(old, self, v, v[:1], 0)
+
+
+@contract(TOK + ".scriptDataDoubleEscapedDashState")
+class ScriptDataDoubleEscapedDashState:
+    props = ("C02",)
+    modular = False
+
+    def inputs(S):
+        return dict(self=tokenizer(S, "scriptDataDoubleEscapedDashState", "any"))
+
+    def call(i):
+        return run_state(i, "scriptDataDoubleEscapedDashState")
+
+    @ensures("C02")
+    def follows_the_standard(old, self, result):
+        v = view(old.self.stream)
+        if result is not True:
+            return False
+        return spec_sd_double_escaped(old, self, v, v[:1], 1)
+
+
+@contract(TOK + ".scriptDataDoubleEscapedDashDashState")
+class ScriptDataDoubleEscapedDashDashState:
+    props = ("C02",)
+    modular = False
+
+    def inputs(S):
+        return dict(self=tokenizer(S, "scriptDataDoubleEscapedDashDashState", "any"))
+
+    def call(i):
+        return run_state(i, "scriptDataDoubleEscapedDashDashState")
+
+    @ensures("C02")
+    def follows_the_standard(old, self, result):
+        v = view(old.self.stream)
+        if result is not True:
+            return False
+        return spec_sd_double_escaped(old, self, v, v[:1], 2)
+
+
+@contract(TOK + ".scriptDataDoubleEscapedLessThanSignState")
+class ScriptDataDoubleEscapedLessThanSignState:
+    props = ("C02",)
+    modular = False
+
+    def inputs(S):
+        return dict(self=tokenizer(S, "scriptDataDoubleEscapedLessThanSignState", "any"))
+
+    def call(i):
+        return run_state(i, "scriptDataDoubleEscapedLessThanSignState")
+
+    @ensures("C02")
+    def follows_the_standard(old, self, result):
+        v = view(old.self.stream)
+        if result is not True:
+            return False
+        return spec_sd_double_escaped_less_than(old, self, v, v[:1])
+
+
+@contract(TOK + ".scriptDataDoubleEscapeEndState")
+class ScriptDataDoubleEscapeEndState:
+    props = ("C02",)
+    modular = False
+
+    def inputs(S):
+        return dict(self=tokenizer(S, "scriptDataDoubleEscapeEndState", "any"))
+
+    def call(i):
+        return run_state(i, "scriptDataDoubleEscapeEndState")
+
+    @ensures("C02")
+    def follows_the_standard(old, self, result):
+        v = view(old.self.stream)
+        if result is not True:
+            return False
+        return spec_sd_double_escape_edge(old, self, v, v[:1], "scriptDataEscapedState", "scriptDataDoubleEscapedState", "scriptDataDoubleEscapedState")
+
+
+
+# ---- character reference in data / RCDATA (13.2.5.72 as html5lib splits it) ------------------------------------------
+# the reference itself is consumeEntity's contract (C14); these two states call it with no additional allowed
+# character and not as part of an attribute, and return to the text state they came from
+def _after_reference(old, self, result, back_to):
+    return (result is True and method_name(self.state) == back_to and self.ghost_entity_call == (None, False)
+            and token_untouched(old, self))
+
+
+@contract(TOK + ".entityDataState")
+class EntityDataState:
+    props = ("C02",)
+
+    def inputs(S):
+        return dict(self=tokenizer(S, "entityDataState", "any"))
+
+    @ensures("C02")
+    def follows_the_standard(old, self, result):
+        return _after_reference(old, self, result, "dataState")
+
+
+@contract(TOK + ".characterReferenceInRcdata")
+class CharacterReferenceInRcdata:
+    props = ("C02",)
+
+    def inputs(S):
+        return dict(self=tokenizer(S, "characterReferenceInRcdata", "any"))
+
+    @ensures("C02")
+    def follows_the_standard(old, self, result):
+        return _after_reference(old, self, result, "rcdataState")
